@@ -177,6 +177,9 @@ Section Ctl.
   Definition step_gen (lb : bool) (s : state) (a : action) : state * list nat :=
     match a with
     | Est p =>
+        (* execCtx == nil (Execute has not stored its handles yet, or has exited):
+           "link established while transport exited, closing link" *)
+        if negb (st_ready s) then (close_only s p, []) else
         let s' := do_est s p in
         if est_stores s p
         then (* newEstablishedLink adds EstablishLinkWithPeer(local, remote); broadcast() *)
